@@ -40,7 +40,7 @@ func (g *dgen) expr(depth int) string {
 		return g.leaf()
 	}
 	sub := func() string { return g.sub(depth) }
-	switch dpick(15) {
+	switch dpick(17) {
 	case 0:
 		return g.leaf()
 	case 1:
@@ -77,6 +77,10 @@ func (g *dgen) expr(depth int) string {
 		return sub() + "[*]"
 	case 13:
 		return "[[for x in l : x], " + sub() + "]"
+	case 14:
+		return sub() + "[*][" + sub() + "]"
+	case 15:
+		return sub() + "[*].a[" + sub() + "]"
 	}
 	return "(" + sub() + ")"
 }
